@@ -216,14 +216,20 @@ impl SearchQuery {
     }
 
     fn slice(&self, mut ids: Vec<DbId>) -> Result<Vec<DbId>, DbError> {
+        let offset = std::cmp::min(self.offset, ids.len() as u64) as usize;
+
         Ok(match (self.limit, self.offset) {
             (0, 0) => ids,
-            (0, _) => ids[self.offset as usize..].to_vec(),
+            (0, _) => ids[offset..].to_vec(),
             (_, 0) => {
-                ids.truncate(self.limit as usize);
+                ids.truncate(std::cmp::min(self.limit, ids.len() as u64) as usize);
                 ids
             }
-            (_, _) => ids[self.offset as usize..(self.offset + self.limit) as usize].to_vec(),
+            (_, _) => {
+                let end = std::cmp::min(self.offset.saturating_add(self.limit), ids.len() as u64)
+                    as usize;
+                ids[offset..end].to_vec()
+            }
         })
     }
 
